@@ -73,7 +73,7 @@ type reqLog struct {
 // H_Gin: one configuration of ScopeMiddleware + Handle, two sequential requests.
 func H_Gin() {
 	nmw := vrt.Pick("nmw", 0, 2)
-	failAt := vrt.Pick("fail", -1, nmw-1)     // index of the failing middleware
+	failAt := vrt.Pick("fail", -1, nmw-1) // index of the failing middleware
 	customErr := vrt.Pick("customErr", 0, 1) == 1
 	outcome := vrt.Pick("outcome", 0, 1)        // 0 ok, 1 handler panics
 	useHandle := vrt.Pick("handle", 0, 1) == 1  // the handler is godigin.Handle(...)
@@ -173,6 +173,18 @@ func H_Gin() {
 	engine.GET("/x", final)
 	h := nethttp.Handler(engine)
 
+	// a second middleware instance, configured AFTER the one that serves the
+	// requests and never used: instances must not share configuration state
+	decoyRan := 0
+	if vrt.Pick("twoinst", 0, 1) == 1 {
+		var dopts []godigin.Option
+		for k := 0; k < 2; k++ {
+			dopts = append(dopts, godigin.WithMiddleware(func(s godi.Scope, gc *gin.Context) error { decoyRan++; return nil }))
+		}
+		_ = godigin.ScopeMiddleware(p, dopts...)
+	}
+	vrt.Quiesce()
+	baseG := vrt.Goroutines()
 	var seenScopes []godi.Scope
 	var seenS1 []*kit.Inst
 	for reqNo := 0; reqNo < 2; reqNo++ {
@@ -269,6 +281,9 @@ func H_Gin() {
 		if sc != nil {
 			_, e := sc.Get(kit.TypeS[1])
 			vrt.Assert(errors.Is(e, godi.ErrScopeDisposed), "C16.scope_not_closed", "the request's scope is still open after the request ended")
+			// C14 at the level of the request cycle: nothing of the request stays behind
+			vrt.Assert(errors.Is(e, godi.ErrScopeDisposed), "C14.request_scope_left_open", "the request ended (on whatever path) but its scope was never closed")
+			vrt.Assert(sc.Context().Err() != nil, "C14.request_scope_context_live", "the request ended but the context of its scope is not cancelled")
 			for _, prev := range seenScopes {
 				vrt.Assert(prev != sc, "C16.scope_reused", "two requests shared a scope")
 			}
@@ -287,6 +302,9 @@ func H_Gin() {
 			}
 		}
 		vrt.Assert(lg.closeErrH == 0, "C16.close_error", "closing the request scope reported an error")
+		vrt.Assert(decoyRan == 0, "C16.foreign_middleware_ran", "a middleware configured for another ScopeMiddleware instance ran", decoyRan, "times")
+		vrt.Quiesce()
+		vrt.Assert(vrt.Goroutines() == baseG, "C14.request_goroutine_left", "goroutines after the request:", vrt.Goroutines(), "before the first request:", baseG)
 	}
 	p.Close()
 	vrt.Quiesce()
